@@ -165,7 +165,7 @@ func ParseContractFile(path string) (*ContractFile, error) {
 			}
 			switch kind {
 			case "requires", "ensures", "modifies", "invariant", "decreases", "local", "terminates", "inline",
-				"recovers", "nopanic", "fresh", "lemma", "assert", "assume", "pure", "split", "appends", "appendsAll", "copies", "mapStore", "mapDelete", "opaque", "panics", "trusted", "variant", "unroll", "calls_only", "lock", "ghost", "known", "uselemma":
+				"recovers", "nopanic", "fresh", "lemma", "assert", "assume", "pure", "split", "appends", "appendsAll", "copies", "mapStore", "mapDelete", "opaque", "panics", "trusted", "variant", "unroll", "calls_only", "lock", "ghost", "known", "uselemma", "exit":
 				cl.Kind = kind
 				cl.Text = rest
 				cur.Clauses = append(cur.Clauses, cl)
@@ -349,6 +349,13 @@ func rewriteGroups(s string) (string, error) {
 				out.Reset()
 				out.WriteString(cur[:b])
 				out.WriteString("/*@final*/(" + strings.TrimSpace(args[0]) + ")")
+			case ch == '(' && ident == "atExit":
+				if len(args) != 2 {
+					return "", fmt.Errorf("atExit takes (loop, expr): %q", s)
+				}
+				out.Reset()
+				out.WriteString(cur[:b])
+				out.WriteString("/*@exit" + strings.TrimSpace(args[0]) + "*/(" + strings.TrimSpace(args[1]) + ")")
 			case ch == '(' && ident == "atHead":
 				if len(args) != 1 {
 					return "", fmt.Errorf("atHead takes one argument: %q", s)
@@ -356,6 +363,13 @@ func rewriteGroups(s string) (string, error) {
 				out.Reset()
 				out.WriteString(cur[:b])
 				out.WriteString("/*@head*/(" + strings.TrimSpace(args[0]) + ")")
+			case ch == '(' && (ident == "forallk" || ident == "existsk"):
+				if len(args) != 2 {
+					return "", fmt.Errorf("%s takes (var, body): %q", ident, s)
+				}
+				out.Reset()
+				out.WriteString(cur[:b])
+				fmt.Fprintf(&out, "__%s(func(%s int) bool { return %s })", ident, strings.TrimSpace(args[0]), strings.TrimSpace(args[1]))
 			case ch == '(' && (ident == "forall" || ident == "exists"):
 				if len(args) != 4 {
 					return "", fmt.Errorf("%s takes (var, lo, hi, body): %q", ident, s)
@@ -409,6 +423,15 @@ func mapAll(m interface{}) interface{} { return nil }
 func ghostAll(name string) interface{} { return nil }
 func anyElems(s interface{}) interface{} { return nil }
 func mapHas(m interface{}, key interface{}) bool { return false }
+func mapKeyOf(m interface{}, key interface{}) int { return 0 }
+func mapKeyPresent(m interface{}, k int) bool { return false }
+func mapKeyVisited(m interface{}, k int) bool { return false }
+func mapVisitedAll(m interface{}) interface{} { return nil }
+func __forallk(f func(int) bool) bool { return true }
+func __existsk(f func(int) bool) bool { return true }
+func __exit(int, bool) {}
+func mapValAtKey(m interface{}, k int) interface{} { return nil }
+func exited(loop int) bool { return false }
 func disk(path string) int { return 0 }
 func diskOfFile(f interface{}) int { return 0 }
 func pathKey(path string) int { return 0 }
@@ -631,6 +654,12 @@ func (cf *ContractFile) Generate() (string, error) {
 					return "", fmt.Errorf("%s:%d: %v", fc.File, cl.Line, err)
 				}
 				stmt = fmt.Sprintf("__appends(%s)", e)
+			case "exit":
+				e, err := RewriteExpr(cl.Text)
+				if err != nil {
+					return "", fmt.Errorf("%s:%d: %v", fc.File, cl.Line, err)
+				}
+				stmt = fmt.Sprintf("__exit(%d, %s)", cl.Loop, e)
 			case "uselemma":
 				e, err := RewriteExpr(cl.Text)
 				if err != nil {
